@@ -83,6 +83,29 @@ def finish (s : St) : String :=
             let fl := (c.ft.firstChildForByte k goal false).map fun j => (c.ft.node j).info.id
             if fl != exp.map (·.id) then flat := flat + 1
       return (chk, out, bad, flat)
+    -- first_child_for_byte_spec_anon for the NAMED variant, same nodes and goals
+    let nfcb := Id.run do
+      let mut chk := 0
+      let mut out := 0
+      let mut bad := 0
+      let mut flat := 0
+      for h : k in [0:c.ft.size] do
+        let f := c.ft[k]'h.2.1
+        let kids := f.kids.toList
+        if kids.isEmpty then continue
+        let i := f.info
+        let self : NodeRef := { t := i.raw, alias := i.alias, id := i.id, start := i.start }
+        let sample := (kids.take 3 ++ (kids.drop 3).reverse.take 3)
+        let goals := i.start.bytes :: sample.flatMap fun j => [c.ft.eb j - 1, c.ft.eb j]
+        for goal in goals do
+          if !(ndeNodeA lang false goal self.t self.start) then out := out + 1
+          else
+            let exp := fcbNodeA lang false goal self.t self.start
+            let got := firstChildForBytePort lang (self.t.size + 1) self goal false
+            if got.map (·.id) == exp.map (·.id) then chk := chk + 1 else bad := bad + 1
+            let fl := (c.ft.firstChildForByte k goal true).map fun j => (c.ft.node j).info.id
+            if fl != exp.map (·.id) then flat := flat + 1
+      return (chk, out, bad, flat)
     -- descendant_for_byte_range_spec_partial from the root, for the (non-empty) range of every node
     -- and its first byte: conclusion port = dfrIdeal; dfrIdeal = smallest spanning node of flatten
     let dfr := Id.run do
@@ -100,13 +123,42 @@ def finish (s : St) : String :=
           let fl := (c.ft.descendantForBytes 0 rs re false).map fun j => (c.ft.node j).info.id
           if fl != some exp.id then flat := flat + 1
       return (chk, bad, flat)
+    -- descendant_for_byte_range_spec_anon (NAMED variant) and descendant_for_point_range_spec_partial
+    -- (both flags) from the root, for the non-empty byte / point range of every node
+    let vdfr := Id.run do
+      let mut nchk := 0
+      let mut nbad := 0
+      let mut nflat := 0
+      let mut pchk := 0
+      let mut pbad := 0
+      let mut pflat := 0
+      let fuel := d.root.size + 1
+      for h : k in [0:c.ft.size] do
+        let sb := c.ft.sb k
+        let eb := c.ft.eb k
+        if sb != eb then
+          let exp := dfrIdealA lang false sb eb fuel rootRef rootRef
+          let got := descendantForByteRangePort lang fuel rootRef sb eb false
+          if got.map (·.id) == some exp.id then nchk := nchk + 1 else nbad := nbad + 1
+          let fl := (c.ft.descendantForBytes 0 sb eb true).map fun j => (c.ft.node j).info.id
+          if fl != some exp.id then nflat := nflat + 1
+        let sp := c.ft.sp k
+        let ep := c.ft.ep k
+        if point_lt sp ep then
+          for anon in [true, false] do
+            let exp := dfrIdealP lang anon sp ep fuel rootRef rootRef
+            let got := descendantForPointRangePort lang fuel rootRef sp ep anon
+            if got.map (·.id) == some exp.id then pchk := pchk + 1 else pbad := pbad + 1
+            let fl := (c.ft.descendantForPoints 0 sp ep (!anon)).map fun j => (c.ft.node j).info.id
+            if fl != some exp.id then pflat := pflat + 1
+      return (nchk, nbad, nflat, pchk, pbad, pflat)
     let psFlatBad := sh.prevs.foldl (init := 0) fun n (did, exp) =>
       match c.byId.get? did with
       | some j =>
         let flat := (c.ft.prevSibling j false).map fun i => ((c.ft.node i).info.raw.data, (c.ft.node i).info.alias)
         if decide (flat = exp) then n else n + 1
       | none => n + 1
-    s!"{s.id} corr={r.corrFails.render} judge={r.fails.render} asked={r.asked} ported={r.portCompared} vis={c.ft.size} raw={js.rawNodes} fanout={s.fanout} hiddenvis={js.hiddenWithVisible} alias={js.aliases} extra={js.extras} err={js.errors} missing={js.missing} zerowidth={js.zeroWidth} multiline={js.multiline} fields={fields} sexpok={if (sexpOKKids lang d.root.kids d.root.data.productionId 0 || hasHiddenMissing lang d.root 0) && !(lang.symMeta 0).visible then 1 else 0} stackbad={r.stackBad} anonleafok={if anonLeafOKKids lang d.root.kids d.root.data.productionId 0 then 1 else 0} hiddenextraok={if hiddenExtraOKKids lang d.root.kids d.root.data.productionId 0 then 1 else 0} hiddenmissing={if hasHiddenMissing lang d.root 0 then 1 else 0} parchk={ph.checked} parzw={ph.zeroWidth} parbad={ph.bad} parflat={flatBad} nschk={sh.checked} nsout={sh.outside} nsbad={sh.bad} nsflat={nsFlatBad} pschk={sh.pchecked} psout={sh.poutside} psbad={sh.pbad} psflat={psFlatBad} fcbchk={fcb.1} fcbout={fcb.2.1} fcbbad={fcb.2.2.1} fcbflat={fcb.2.2.2} dfrchk={dfr.1} dfrbad={dfr.2.1} dfrflat={dfr.2.2} kind={s.kind}"
+    s!"{s.id} corr={r.corrFails.render} judge={r.fails.render} asked={r.asked} ported={r.portCompared} vis={c.ft.size} raw={js.rawNodes} fanout={s.fanout} hiddenvis={js.hiddenWithVisible} alias={js.aliases} extra={js.extras} err={js.errors} missing={js.missing} zerowidth={js.zeroWidth} multiline={js.multiline} fields={fields} sexpok={if (sexpOKKids lang d.root.kids d.root.data.productionId 0 || hasHiddenMissing lang d.root 0) && !(lang.symMeta 0).visible then 1 else 0} stackbad={r.stackBad} anonleafok={if anonLeafOKKids lang d.root.kids d.root.data.productionId 0 then 1 else 0} hiddenextraok={if hiddenExtraOKKids lang d.root.kids d.root.data.productionId 0 then 1 else 0} hiddenmissing={if hasHiddenMissing lang d.root 0 then 1 else 0} parchk={ph.checked} parzw={ph.zeroWidth} parbad={ph.bad} parflat={flatBad} nschk={sh.checked} nsout={sh.outside} nsbad={sh.bad} nsflat={nsFlatBad} pschk={sh.pchecked} psout={sh.poutside} psbad={sh.pbad} psflat={psFlatBad} fcbchk={fcb.1} fcbout={fcb.2.1} fcbbad={fcb.2.2.1} fcbflat={fcb.2.2.2} dfrchk={dfr.1} dfrbad={dfr.2.1} dfrflat={dfr.2.2} nfcbchk={nfcb.1} nfcbout={nfcb.2.1} nfcbbad={nfcb.2.2.1} nfcbflat={nfcb.2.2.2} ndfrchk={vdfr.1} ndfrbad={vdfr.2.1} ndfrflat={vdfr.2.2.1} pdfrchk={vdfr.2.2.2.1} pdfrbad={vdfr.2.2.2.2.1} pdfrflat={vdfr.2.2.2.2.2} znschk={sh.zchecked} znsout={sh.zoutside} znsbad={sh.zbad} zpschk={sh.zpchecked} zpsout={sh.zpoutside} zpsbad={sh.zpbad} pgenbad={sh.pgenbad} znsoutpar={sh.zwhy.1} znsoutfollow={sh.zwhy.2.1} znsoutzw={sh.zwhy.2.2.1} zpsoutpar={sh.zwhy.2.2.2.1} zpsoutid={sh.zwhy.2.2.2.2.1} zpsoutzw={sh.zwhy.2.2.2.2.2} kind={s.kind}"
   | _, _, _ => s!"{s.id} corr=BADINPUT judge=BADINPUT asked=0"
 
 def step (s : St) (line : String) : IO St := do
